@@ -27,6 +27,7 @@ func pickCodecCase(c *explore.C, ff *flatFamily, tier universe.Tier) *codecCase 
 	vals := valuesOf(s, tier)
 	vi := c.Choose(len(vals), explore.Data, "value")
 	harness.Cur.Crumb(c.Choices())
+	universe.MapHoles = vi%2 == 1 // every other value: maps that have had entries deleted
 	return &codecCase{ti: ti, vi: vi, fam: ff.fam[ti], s: s, v: vals[vi]}
 }
 
